@@ -2,3 +2,26 @@ import Cherab.Props.C08
 open Cherab.Props.C08
 #print axioms readvalues_chunks
 #print axioms adf2x_roundtrip
+#print axioms adf12_roundtrip
+#print axioms adf12_absent_block_rejected
+#print axioms adf11_roundtrip_partial
+#print axioms probe_nonneg
+#print axioms probe_after_fix
+#print axioms adf11_unresolved_misdetected
+#print axioms wrong_element_rejected
+#print axioms element_check_iff
+#print axioms adf11_absent_block
+#print axioms axis_order
+#print axioms axis_order15
+#print axioms axis_order2x
+#print axioms charge_offset
+#print axioms charge_convention
+#print axioms dictOfList_nodup
+#print axioms scrape_render
+#print axioms extract_finds_block
+#print axioms block_to_transition
+#print axioms adf15_roundtrip
+#print axioms absent_block_rejected
+#print axioms lex_literals_pinned
+#print axioms charge_list_pinned
+#print axioms norm_pinned
